@@ -376,6 +376,25 @@ fn expand_calibrations(req: &Value) -> Value {
     json!({"source_body": source_body, "plain": plain, "mapped": mapped})
 }
 
+/// QubitGraph::gate_depth of the single block of each program, for each threshold.
+fn gate_depth(req: &Value) -> Value {
+    use quil_rs::program::analysis::{BasicBlock, QubitGraph};
+    let program = match Program::from_str(req["program"].as_str().unwrap()) {
+        Ok(p) => p,
+        Err(e) => return json!({"input_error": format!("{e:?}")}),
+    };
+    let block: BasicBlock = match (&program).try_into() {
+        Ok(b) => b,
+        Err(e) => return json!({"input_error": format!("{e:?}")}),
+    };
+    let graph = match QubitGraph::try_from_basic_block(&block, &quil_rs::instruction::DefaultHandler) {
+        Ok(g) => g,
+        Err(e) => return json!({"graph_error": format!("{e:?}")}),
+    };
+    let depths: Vec<Value> = req["thresholds"].as_array().unwrap().iter().map(|k| json!(graph.gate_depth(k.as_u64().unwrap() as usize))).collect();
+    json!({"depths": depths, "body": program.body_instructions().map(dbg).collect::<Vec<_>>()})
+}
+
 /// qubit parameter names out of `DefGateSequence { qubits: ["a", "b"], gates: [...] }` (the fields are crate-private)
 fn parse_debug_qubits(s: &str) -> Option<Vec<String>> {
     let start = s.find("qubits: [")? + "qubits: [".len();
@@ -521,6 +540,7 @@ pub fn run(op: &str, req: &Value) -> Value {
         "expand_calibrations" => expand_calibrations(req),
         "calibration_match" => calibration_match(req),
         "expand_defgate_sequences" => expand_defgate_sequences(req),
+        "gate_depth" => gate_depth(req),
         "roles" => roles(req),
         "schedule_graph" => schedule_graph(req),
         "extern_signature_map" => extern_signature_map(req),
